@@ -380,6 +380,10 @@ def emit_pmap(tree):
   _need(ok, 'run_block: sharded init, for (p_batch, p_mask) in block.masked_batches: step + append, final')
   # run: for block in _blockify(clients, block_size): ... for i in range(len(block.client_id)): skip / slice
   run = _find_fdef(b, 'run')
+  # the pmapped functions only ever see internal copies (device_put of np.stack) of the caller's
+  # arrays, so the donation flags of the pmap backend cannot reach a caller buffer
+  _need(_src(_find_assign(_body(run), 'p_shared_input').value) == '_device_put_replicated(shared_input, devices)',
+        'p_shared_input = _device_put_replicated(shared_input, devices)')
   bl = [s for s in _body(run) if isinstance(s, ast.For)]
   _need(len(bl) == 1 and _src(bl[0].iter) == '_blockify(clients, block_size)' and _is_name(bl[0].target, 'block'),
         'for block in _blockify(clients, block_size)')
